@@ -61,6 +61,8 @@ def tasks(tier):
         for nb in (1, 2, 3):
             out.append('gj:%d:%d' % (n, nb))
     out += ['gjwit', 'linalg3', 'tql2', 'canary']
+    out += ['tred2:%d' % k for k in range(TRED2_PATHS)]
+    out += ['eigen_bounded']
     return out
 
 
@@ -182,6 +184,10 @@ def run_task(task, ctx):
         return task_linalg3(ctx, repo)
     if parts[0] == 'tql2':
         return task_tql2(ctx, repo)
+    if parts[0] == 'tred2':
+        return task_tred2(ctx, repo, int(parts[1]))
+    if parts[0] == 'eigen_bounded':
+        return task_eigen_bounded(ctx, repo)
     if parts[0] == 'canary':
         a = syms('a', 2)
         ctx.canary('canary.must_fail', Obligation('c', [], a[0] * a[1] ==
@@ -810,3 +816,185 @@ print(json.dumps(out))
                             how='linalg3 built from the working tree')
         return dict(reproduced=False)
     ctx.prove('linalg3.tql2_safety', obs, replay=rp, use_nf=False)
+
+
+# ------------------------------------------------------------------- tred2
+TRED2_PATHS = 9
+
+
+def task_tred2(ctx, repo, which):
+    """tred2 (Householder reduction to tridiagonal form), n = 3, symmetric
+    input: on every path with at most ONE active reflection (a degenerate
+    row at either step: 5 of the 9 paths, all inputs with a02 = a12 = 0 or a
+    zero sub-row) V is orthogonal afterwards and A V = V T with
+    T = tridiag(d; e[1], e[2]), e[0] = 0.  The 4 paths with two nested
+    reflections (nested square roots) are NOT proved: they are covered only
+    by the bounded native stand-in (task tred2_bounded)."""
+    mc = repo.cython_module(PYX)
+    fn = mc.functions['tred2']
+    W = mc.path
+    N = 3
+    A = [[z3.Real('a%d%d' % (min(i, j), max(i, j))) for j in range(N)]
+         for i in range(N)]
+    V = [list(r) for r in A]
+    d = syms('d', N)
+    e = syms('e', N)
+    ex = Executor(repo, mc, qualname='tred2', definedness='assume',
+                  merge=False, prune=True)
+    ex.spec_env['n'] = N
+    ex.spec_env['fabs'] = Native(lambda e_, s_, a, k, nd: S.ite(
+        S.cmp('>=', a[0], 0), a[0], S.neg(a[0])))
+    outs = ex.exec_function(fn, dict(V=V, d=d, e=e), State(pc=[]))
+    if which == 0:
+        ctx.function(mc, fn, 'tred2', ex.dropped)
+        ctx.prove('tred2.paths', [Obligation('tred2.path_count', [],
+                                             z3.BoolVal(len(outs) ==
+                                                        TRED2_PATHS), W,
+                                             extra=dict(paths=len(outs)))])
+    if which >= len(outs):
+        return
+    o = outs[which]
+
+    def nsqrt(exprs):
+        seen = set()
+
+        def walk(x):
+            if not S.is_sym(x) or x.get_id() in seen:
+                return
+            seen.add(x.get_id())
+            if z3.is_app(x) and x.decl().name() == 'sqrt':
+                seen.add(('sqrt', x.get_id()))
+            for c in x.children():
+                walk(c)
+        for x in exprs:
+            walk(S.to_z3(x) if S.is_sym(x) else x)
+        return len([k for k in seen if isinstance(k, tuple)])
+    flat = [c for c in o.pc] + [x for r in o.state.env['V'] for x in r]
+    if nsqrt(flat) > 1:
+        ctx.note('tred2 path %d: two nested reflections, not proved '
+                 '(bounded stand-in only)' % which)
+        return
+    obs = []
+    Vf, df, ef = o.state.env['V'], o.state.env['d'], o.state.env['e']
+    for i in range(N):
+        for j in range(i, N):
+            s_ = 0
+            for k in range(N):
+                s_ = S.add(s_, S.mul(Vf[k][i], Vf[k][j]))
+            g = S.cmp('==', s_, 1 if i == j else 0)
+            obs.append(Obligation('tred2.orthogonal.%d.%d' % (i, j), o.pc,
+                                  S.to_z3(g) if S.is_sym(g) else z3.BoolVal(
+                                      bool(g)), W))
+    T = [[0] * N for _ in range(N)]
+    for i in range(N):
+        T[i][i] = df[i]
+    for i in range(1, N):
+        T[i][i - 1] = ef[i]
+        T[i - 1][i] = ef[i]
+    for i in range(N):
+        for j in range(N):
+            l, r_ = 0, 0
+            for k in range(N):
+                l = S.add(l, S.mul(A[i][k], Vf[k][j]))
+                r_ = S.add(r_, S.mul(Vf[i][k], T[k][j]))
+            g = S.cmp('==', l, r_)
+            obs.append(Obligation('tred2.AV=VT.%d.%d' % (i, j), o.pc,
+                                  S.to_z3(g) if S.is_sym(g) else z3.BoolVal(
+                                      bool(g)), W))
+    g = S.cmp('==', ef[0], 0)
+    obs.append(Obligation('tred2.e0_is_zero', o.pc, S.to_z3(g) if S.is_sym(g)
+                          else z3.BoolVal(bool(g)), W))
+
+    def rp(model, ob):
+        mats = [[[2, 1, 0], [1, 3, 0], [0, 0, 4]],
+                [[1, 2, 0], [2, 4, 0], [0, 0, 0]],
+                [[1e-8, 3e-8, 0], [3e-8, 2e-8, 0], [0, 0, 5e-8]],
+                [[2, 1, 0.5], [1, 3, 1], [0.5, 1, 4]],
+                [[0, 0, 0], [0, 2, 1], [0, 1, 3]]]
+        script = """
+import json, sys
+import numpy as np
+import linalg3
+out = []
+for a in json.load(sys.stdin)['mats']:
+    A = np.array(a, dtype=float)
+    d, V = linalg3.py_eigen_decompose_eispack(A.copy())
+    d = np.asarray(d); V = np.asarray(V)
+    sc = max(np.abs(A).max(), 1e-300)
+    out.append([float(np.abs(A @ V - V @ np.diag(d)).max() / sc),
+                float(np.abs(V.T @ V - np.identity(3)).max())])
+print(json.dumps(out))
+"""
+        try:
+            res = native.run_built_pyx(PYX, script, dict(mats=mats))
+        except Exception as e_:
+            return dict(reproduced=False, note='build/run failed: %s' %
+                        str(e_)[:300])
+        for a, (r1, r2) in zip(mats, res):
+            if not (r1 <= 1e-8 and r2 <= 1e-8):
+                return dict(reproduced=True, A=a, residual_AV_Vd=r1,
+                            residual_orth=r2,
+                            how='linalg3 built from the working tree '
+                            '(eigen_decomposition = tred2 + tql2)')
+        return dict(reproduced=False)
+    ctx.prove('linalg3.tred2.path%d' % which, obs, replay=rp)
+
+
+def task_eigen_bounded(ctx, repo):
+    """BOUNDED stand-in (never counted as proved) for what is outside reach:
+    the two-reflection paths of tred2 and the QL iteration of tql2.  The
+    extension is built from the working tree and eigen_decomposition is run
+    on a fixed list of symmetric matrices (random full, plane tensors with
+    a02 = a12 = 0, zero first row/column, rank one, repeated eigenvalues,
+    scales 1e-8 .. 1e8): A V = V diag(d), V orthogonal, d ascending."""
+    import random
+    rnd = random.Random(13)
+    mats = []
+    for sc in (1.0, 1e-8, 1e8):
+        for _ in range(6):
+            a = [[0.0] * 3 for _ in range(3)]
+            for i in range(3):
+                for j in range(i, 3):
+                    a[i][j] = a[j][i] = rnd.uniform(-1, 1) * sc
+            mats.append(a)
+        mats.append([[2 * sc, 1 * sc, 0], [1 * sc, 3 * sc, 0],
+                     [0, 0, 4 * sc]])
+        mats.append([[0, 0, 0], [0, 2 * sc, 1 * sc], [0, 1 * sc, 3 * sc]])
+        mats.append([[1 * sc, 2 * sc, 3 * sc], [2 * sc, 4 * sc, 6 * sc],
+                     [3 * sc, 6 * sc, 9 * sc]])
+        mats.append([[sc, sc, sc], [sc, sc, sc], [sc, sc, sc]])
+        mats.append([[2 * sc, 0, 0], [0, 2 * sc, 0], [0, 0, sc]])
+        mats.append([[0, 1 * sc, 0], [1 * sc, 0, 0], [0, 0, 0]])
+    script = """
+import json, sys
+import numpy as np
+import linalg3
+out = []
+for a in json.load(sys.stdin)['mats']:
+    A = np.array(a, dtype=float)
+    d, V = linalg3.py_eigen_decompose_eispack(A.copy())
+    d = np.asarray(d); V = np.asarray(V)
+    sc = max(np.abs(A).max(), 1e-300)
+    out.append([float(np.abs(A @ V - V @ np.diag(d)).max() / sc),
+                float(np.abs(V.T @ V - np.identity(3)).max()),
+                bool(np.all(np.diff(d) >= -1e-12 * sc))])
+print(json.dumps(out))
+"""
+    bound = '%d symmetric 3x3 matrices (see docstring)' % len(mats)
+    try:
+        res = native.run_built_pyx(PYX, script, dict(mats=mats))
+    except Exception as e_:
+        ctx.bounded_check('eigen.native', bound, 0, False,
+                          'build/run failed: %s' % str(e_)[:300])
+        return
+    bad = None
+    for a, (r1, r2, asc) in zip(mats, res):
+        if not (r1 <= 1e-8 and r2 <= 1e-8 and asc):
+            bad = dict(A=a, residual_AV_Vd=r1, residual_orth=r2,
+                       ascending=asc)
+            break
+    ctx.bounded_check('eigen.native', bound, len(mats), bad is None,
+                      bad or 'ok')
+    ctx.prove('eigen.bounded_check_ran', [Obligation(
+        'ran', [], z3.BoolVal(True), PYX)],
+        info='bounded, not proved: see coverage.bounded')
